@@ -1,75 +1,20 @@
 #!/usr/bin/env python3
-"""Self-test bank (DESIGN §2.11): every mutant must make the named check report a VIOLATION that
-names the expected rule; every refactor must leave it silent.  Each variant is a string replacement
-applied to a scratch copy of /repo/src (outside /repo and /verif), analysed — never built or run —
-and removed afterwards.   usage: selftest.py [id-substring …]"""
-import json, os, shutil, subprocess, sys, tempfile
+"""Self-test bank runner: selftest.py [id-substring …]   (see lib/selftest_bank.py)"""
+import os
+import sys
 
-VERIF = os.path.dirname(os.path.dirname(os.path.abspath(__file__)))
-REPO = "/repo"
-
-
-def make_copy(dst):
-    os.makedirs(dst)
-    subprocess.run(["rsync", "-a", "--exclude", "*.o", "--exclude", "*.lo", "--exclude", ".libs", "--exclude", ".deps", "--exclude", "*.la",
-                    REPO + "/src", dst + "/"], check=True)
-    for f in ("config.h",):
-        if os.path.exists(os.path.join(REPO, f)):
-            shutil.copy2(os.path.join(REPO, f), dst)
-
-
-def apply(m, root):
-    p = os.path.join(root, "src", m["file"])
-    s = open(p).read()
-    n = s.count(m["old"])
-    if m.get("count") == "any":
-        if n == 0:
-            return "pattern not found"
-        s = s.replace(m["old"], m["new"])
-    elif "occurrence" in m:
-        if n < m["occurrence"]:
-            return "pattern occurs %d times, need occurrence %d" % (n, m["occurrence"])
-        idx = -1
-        for _ in range(m["occurrence"]):
-            idx = s.index(m["old"], idx + 1)
-        s = s[:idx] + m["new"] + s[idx + len(m["old"]):]
-    else:
-        if n != m["count"]:
-            return "pattern occurs %d times, expected %d" % (n, m["count"])
-        s = s.replace(m["old"], m["new"])
-    open(p, "w").write(s)
-    return None
+sys.path.insert(0, os.path.join(os.path.dirname(os.path.abspath(__file__)), "..", "lib"))
+import selftest_bank  # noqa: E402
 
 
 def main():
-    sel = sys.argv[1:]
-    bank = json.load(open(os.path.join(VERIF, "selftest", "mutants.json")))
-    bank = [m for m in bank if not sel or any(x in m["id"] for x in sel)]
-    tmp = tempfile.mkdtemp(prefix="msa_selftest_")
+    bank = selftest_bank.load(selectors=sys.argv[1:])
     bad = 0
-    try:
-        for m in bank:
-            root = os.path.join(tmp, m["id"])
-            make_copy(root)
-            err = apply(m, root)
-            if err:
-                print("STALE   %-36s %s" % (m["id"], err)); bad += 1
-                shutil.rmtree(root); continue
-            env = dict(os.environ, MSA_REPO=root, MSA_NO_EVIDENCE="1")
-            r = subprocess.run([os.path.join(VERIF, "check"), m["property"], "--tier", "quick"], capture_output=True, text=True, env=env)
-            out = r.stdout
-            if m["kind"] == "mutant":
-                ok = r.returncode == 1 and "VIOLATION property=%s" % m["property"] in out and ("[%s" % m["expect_rule"]) in out
-                print("%s %-36s %s exit=%d expect [%s]" % ("caught " if ok else "MISSED ", m["id"], m["property"], r.returncode, m["expect_rule"]))
-            else:
-                ok = r.returncode == 0 and "VIOLATION" not in out
-                print("%s %-36s %s exit=%d" % ("silent " if ok else "ALARMED", m["id"], m["property"], r.returncode))
-            if not ok:
-                bad += 1
-                print("\n".join("      " + l[:220] for l in out.splitlines()[-8:]))
-            shutil.rmtree(root)
-    finally:
-        shutil.rmtree(tmp, ignore_errors=True)
+    for m, (status, detail) in selftest_bank.run_bank(bank, jobs=4):
+        print("%-8s %-40s %s %s" % (status, m["id"], m["property"], ("expect [%s]" % m["expect_rule"]) if m["kind"] == "mutant" else ""))
+        if status not in ("caught", "silent"):
+            bad += 1
+            print("      " + detail[:400])
     print("%d variant(s), %d not as expected" % (len(bank), bad))
     return 1 if bad else 0
 
